@@ -102,6 +102,9 @@ def r23(ctx, chk, rule2="C03.2", rule3="C03.3"):
         if isinstance(src_t, tuple) and src_t and src_t[0] == "filtered":
             flt = simp(("and", (src_t[2], flt)))
             src_t = src_t[1]
+        if src_t != SELF_NEXT and isinstance(src_t, tuple) and src_t[0] == "ite" and any(x[0] == "v" and x[1] != "self" for x in _sub(src_t[1])):
+            chk.undecided(rule2, where, "which list the survivors are drawn from depends on `%s`, a parameter that is not resolved in the call context" % show(src_t[1])[:80])
+            continue
         if src_t != SELF_NEXT or not kf.whole:
             chk.violation(rule2, where, "survivors are drawn from `%s`%s, not from the whole successor list" % (show(src_t), "" if kf.whole else " (slice)"),
                           expected="FILTER(self.next_states, R[t] != 0)", found=kf.text(), construct="%s.prune_paths source" % cls)
@@ -605,6 +608,13 @@ def r5_dispatch(ctx, chk, rule="C03.5"):
         return
     cond, _, call = calls[0]
     st = ("elem", L.id)
+    from ..symx import mentions_acc
+    moving = [a for a in call[3][1:] if mentions_acc(a, L.id)] + [v_ for _, v_ in call[4] if mentions_acc(v_, L.id)]
+    if call[1] == st and moving:
+        chk.violation(rule, f.where(L.node), "prune_paths receives `%s`, which this very loop modifies between the calls: what is cut from a state depends on which states "
+                      "were visited before it (a final state whose successors were all cut still reaches the goal with probability 1, yet states listed after it lose "
+                      "their transition into it)" % show(moving[0])[:80], expected="arguments fixed before the sweep", found=show(call)[:120], construct="Solver.prune_paths moving argument")
+        return
     if call[1] != st or not call[3] or call[3][0] != slist:       # further arguments (a tolerance ...) are judged where they are used (C03.2)
         chk.violation(rule, f.where(L.node), "prune_paths is called as `%s`" % show(call), expected="state.prune_paths(self.state_list)",
                       found=show(call), construct="Solver.prune_paths call")
